@@ -16,7 +16,8 @@ RULE = (
     "(Z=p-1), Jneg (negation of -P, Z=1, unreduced Y), Jnegz3 (negation, Z=3), Jacc (unnormalised "
     "result of a previous addition, confirmed by the harness to denote P), L (legacy affine Point), "
     "INFINITY; operations P+Q, ==, != in both orders, and per point double(), -P, to_affine(), x(), "
-    "y(), scale(). Hypothesis part: the 17 named curves with points k*G (boundary k), random Z, "
+    "y(), scale(); equality of points with identical coordinates on two different curves over the same field "
+    "(must be False in every representation, before and after rescaling). Hypothesis part: the 17 named curves with points k*G (boundary k), random Z, "
     "structured pairs (P=Q in different scalings, P=-Q, mixed Z=1/Z!=1, negated, accumulator-shaped). "
     "Oracle: affine chord-and-tangent reference; coordinates must be canonical residues. Non-trivial = "
     "P=Q, P=-Q, an identity operand or result, equal Z != 1, mixed Z=1/Z!=1, a negated operand or a "
@@ -187,6 +188,43 @@ def sweep_curve(ctx, c, reps):
                     check_pair(ctx, c, P, Q, rp, rq, helpers.get(P), helpers.get(Q), enum=True)
 
 
+def cross_curve_eq(ctx, c1, reps):
+    """points with identical coordinates on two different curves over the same field never compare
+    equal, whatever representation either operand is in (and whatever was done to it before)"""
+    p, a, b = c1
+    cf1 = CurveFp(p, a, b)
+    for P in rec.points(c1):
+        x, y = P
+        a2 = (a + 1) % p
+        b2 = (b - x) % p
+        c2 = (p, a2, b2)
+        if not rec.nonsingular(c2) or not rec.on_curve(c2, P) or P[1] == 0:
+            continue
+        cf2 = CurveFp(p, a2, b2)
+        for r1 in reps:
+            for r2 in reps:
+                A = EU.build(cf1, c1, P, r1)
+                B = EU.build(cf2, c2, P, r2)
+                if A is None or B is None:
+                    continue
+                ctx.ev()
+                case = {"kind": "crosseq", "c": list(c1), "P": list(P), "rp": r1, "rq": r2}
+                try:
+                    res = [(A == B), (B == A), not (A != B), not (B != A)]
+                    if r1 != "L":
+                        A.scale()
+                    if r2 != "L":
+                        B.scale()
+                    res += [(A == B), (B == A)]
+                except Exception as e:
+                    ctx.fail("cross-curve-eq/exception/%s" % exc_sig(e), case, repr(e))
+                    continue
+                if any(res):
+                    ctx.fail("cross-curve-eq/equal/%s+%s" % (REPCLASS[r1], REPCLASS[r2]), case,
+                             "points on y^2=x^3+%dx+%d and y^2=x^3+%dx+%d mod %d compare equal: %r" % (a, b, a2, b2, p, res))
+                ctx.nontrivial_enum()
+
+
 # ---------------------------------------------------------------- production curves
 def check_big(ctx, case):
     d = gen.dom(case["curve"])
@@ -299,6 +337,7 @@ def run_unit(ctx, name, **kw):
     if name == "sweep":
         for c in kw["curves"]:
             sweep_curve(ctx, tuple(c), tuple(kw["reps"]))
+            cross_curve_eq(ctx, tuple(c), tuple(kw["reps"]))
         c0 = kw["curves"][0]
         ctx.sample({"kind": "sweep", "c": c0, "points": len(rec.points(tuple(c0))) + 1,
                     "reps": kw["reps"], "note": "all ordered pairs x all representation pairs"})
@@ -322,3 +361,5 @@ def replay(ctx, case):
         check_unary(ctx, tuple(case["c"]), t(case["P"]), case["rp"], t(case.get("hp")))
     elif k == "big":
         check_big(ctx, case)
+    elif k == "crosseq":
+        cross_curve_eq(ctx, tuple(case["c"]), (case["rp"], case["rq"]))
